@@ -203,6 +203,44 @@ pub struct TreeKnobs {
     /// inert fraction in percent
     pub inert_pct: u32,
     pub min_eligible: usize,
+    /// some eligible files hold nothing but white space (a placeholder left by `touch`/`echo >`).
+    /// Off unless the caller also restricts its patterns with `keep_blank_tolerant`: on the pinned
+    /// tree the version-dependent detectors abort on a file without a pragma.
+    pub blank_files: bool,
+}
+
+pub const BLANK_TEXTS: &[&str] = &["\n", "\n\n\n", "  \n\t\n \n\n\n\n\n", " ", "", "\r\n\r\n"];
+
+/// Patterns whose detector returns (rather than aborts) on a file that holds only white space;
+/// asked of the code under test once, as a filter on the workload.
+pub fn blank_tolerant(p: Pat) -> bool {
+    static T: std::sync::OnceLock<std::collections::HashSet<String>> = std::sync::OnceLock::new();
+    T.get_or_init(|| {
+        let mut ok = std::collections::HashSet::new();
+        for c in CATS {
+            for p in defaults(c) {
+                if BLANK_TEXTS.iter().all(|t| crate::pats::analyze_file(t, 0, p).is_ok()) {
+                    ok.insert(p.label());
+                }
+            }
+        }
+        ok
+    })
+    .contains(&p.label())
+}
+
+pub fn is_blank(bytes: &[u8]) -> bool {
+    bytes.iter().all(|b| b.is_ascii_whitespace())
+}
+
+/// If an eligible file of the world is blank, keep only the patterns that tolerate such a file.
+pub fn keep_blank_tolerant(world: &World, pats: &mut Vec<Pat>) {
+    let any_blank = world.files().iter().any(|f| {
+        crate::model::eligible_name(crate::world::base_name(f)) && world.file(f).map_or(false, |(b, _)| is_blank(b))
+    });
+    if any_blank {
+        pats.retain(|p| blank_tolerant(*p));
+    }
 }
 
 impl TreeKnobs {
@@ -214,6 +252,7 @@ impl TreeKnobs {
             max_files_per_dir: rng.range(1, 4),
             inert_pct: *rng.pick(&[0, 0, 20, 40, 60]),
             min_eligible: 0,
+            blank_files: false,
         }
     }
 }
@@ -293,6 +332,9 @@ pub fn gen_tree(
                     continue;
                 }
                 let mut text = screen.gen_text(rng);
+                if k.blank_files && rng.chance(1, 3) {
+                    text = rng.pick(BLANK_TEXTS).to_string();
+                }
                 // sometimes a different text of exactly the same byte length as an existing file
                 if !info.eligible.is_empty() && rng.chance(1, 6) {
                     let other = rng.pick(&info.eligible).clone();
